@@ -52,12 +52,35 @@ class TermEncoder:
         self.names = LookupEncoder(lookup_size=lookup_preset.max_names)
         self.prefixes = LookupEncoder(lookup_size=lookup_preset.max_prefixes)
         self.datatypes = LookupEncoder(lookup_size=lookup_preset.max_datatypes)
+        self.row_open = False
 
     def start_row(self) -> None:
-        """Start encoding the terms of a new row: entries of the previous one may go."""
-        self.names.lookup.pinned = set()
-        self.prefixes.lookup.pinned = set()
-        self.datatypes.lookup.pinned = set()
+        """
+        Start encoding the terms of a new row: entries of the previous one may go.
+
+        Raises:
+            JellyConformanceError: if the previous row was abandoned after it had
+                used the lookup tables: entries may have been assigned whose rows
+                were never sent, so nothing more can be written to this stream.
+
+        """
+        lookups = (self.names.lookup, self.prefixes.lookup, self.datatypes.lookup)
+        if self.row_open and any(lookup.pinned for lookup in lookups):
+            msg = (
+                "a statement failed after it had changed the lookup tables; "
+                "the stream cannot be continued"
+            )
+            raise JellyConformanceError(msg)
+        self.row_open = True
+        for lookup in lookups:
+            lookup.pinned = set()
+
+    def end_row(self) -> None:
+        """Finish a row: all its terms were encoded and the row is handed out."""
+        self.row_open = False
+        self.names.lookup.pinned = None
+        self.prefixes.lookup.pinned = None
+        self.datatypes.lookup.pinned = None
 
     def encode_iri_indices(self, iri_string: str) -> tuple[Rows, int, int]:
         """
@@ -311,7 +334,13 @@ def encode_triple(
     triple = jelly.RdfTriple()
     terms = iter(terms)
     term_encoder.start_row()
-    rows = encode_spo(terms, term_encoder, repeated_terms, triple)
+    previous = list(repeated_terms)
+    try:
+        rows = encode_spo(terms, term_encoder, repeated_terms, triple)
+    except Exception:
+        repeated_terms[:] = previous  # the statement is not written: forget its terms
+        raise
+    term_encoder.end_row()
     row = jelly.RdfStreamRow(triple=triple)
     rows.append(row)
     return rows
@@ -337,12 +366,18 @@ def encode_quad(
     terms = iter(terms)
     quad = jelly.RdfQuad()
     term_encoder.start_row()
-    rows = encode_spo(terms, term_encoder, repeated_terms, quad)
-    g = next(terms)
-    if repeated_terms[Slot.graph] != g:
-        extra_rows = term_encoder.encode_graph(g, quad)
-        rows.extend(extra_rows)
-        repeated_terms[Slot.graph] = g
+    previous = list(repeated_terms)
+    try:
+        rows = encode_spo(terms, term_encoder, repeated_terms, quad)
+        g = next(terms)
+        if repeated_terms[Slot.graph] != g:
+            extra_rows = term_encoder.encode_graph(g, quad)
+            rows.extend(extra_rows)
+            repeated_terms[Slot.graph] = g
+    except Exception:
+        repeated_terms[:] = previous  # the statement is not written: forget its terms
+        raise
+    term_encoder.end_row()
     row = jelly.RdfStreamRow(quad=quad)
     rows.append(row)
     return rows
@@ -368,6 +403,7 @@ def encode_namespace_declaration(
     iri = jelly.RdfIri()
     term_encoder.start_row()
     [*rows] = term_encoder.encode_iri(value, iri=iri)
+    term_encoder.end_row()
     declaration = jelly.RdfNamespaceDeclaration(name=name, value=iri)
     row = jelly.RdfStreamRow(namespace=declaration)
     rows.append(row)
